@@ -293,6 +293,15 @@ def sqlite_columns(tier):
         if computed:
             r.fail('O2/other-snapshots/column-recomputed', f'the other snapshots of the group are re-inserted with column(s) {computed} computed anew ({[v for v in vals if not re.fullmatch(r"[?][0-9]*", v)]}) '
                    'instead of carrying the stored value: a surviving snapshot changes (e.g. its age restarts, so it outlives the time-to-live)')
+        # rows re-inserted under the rolled-back group's id must be rows that belonged to that group
+        # (a read of snapshot rows that also selects their name is the read of the snapshots to be put back, whatever its WHERE looks like)
+        any_other_read = [x for x in rest_prog if x.kind == 'SELECT' and x.table == 'group_state_snapshots' and x not in others_sel and x.where is not None
+                          and 'snapshot_name' in (x.select or []) and not any(isinstance(c, tuple) and c[0] == 'snapshot_name' and c[1] == '=' for c in x.where)]
+        for x in others_sel + any_other_read:
+            conj = {(c[0], c[1]) for c in (x.where or []) if isinstance(c, tuple)}
+            if (gcol, '=') not in conj:
+                r.fail('O2/other-snapshots/not-group-scoped', f'the snapshots put back after the cascade are read with "{x.text.split("WHERE")[-1].strip()[:80]}", not restricted to the rolled-back group: '
+                       'snapshots of OTHER groups are copied under this group (they are never pruned with their own group and hold key material)')
         if not others_sel:
             r.fail('O2/other-snapshots/not-read', 'other snapshots are re-inserted but never read before the cascade')
         else:
